@@ -207,8 +207,40 @@ def run_transfer(spec):
         depth = rng.choice((0, 0, 1, 2, 3))
         direction = rng.choice(("l2r", "r2l"))
         label = f"transfer {direction} depth={depth} run={i}"
+        receiver = rng.choice(("receive", "receive", "callback_only"))
+        label += f" receiver={receiver}"
         try:
-            if direction == "l2r":
+            if receiver == "callback_only":
+                # the gw.remote_exec(..).setcallback(cb) idiom: only the callback is left of the receiving channel
+                import gc
+
+                from vlib import pairs
+
+                lc, rc = lab.pair_newchannel_local()
+                box = []
+                if direction == "l2r":
+                    rc.setcallback(box.append)
+                    out = lc
+                    del rc
+                    c = lab.gw.newchannel()
+                else:
+                    lc.setcallback(box.append)
+                    out = rc
+                    del lc
+                    c = lab.remote_gateway.newchannel()
+                gc.collect()
+                v, path = nest(rng, c, depth)
+                out.send(v)
+                pairs.wait_until(lambda: box, 15.0)
+                res.count("transfers_to_callback_only_receiver")
+                if not box:
+                    res.violation("channel-sent-to-callback-only-receiver-never-arrived", f"{label}: sender channel closed={out.isclosed()}")
+                    out.close()
+                    continue
+                got = unnest(box[0], path)
+                out.close()
+                a, b = c, got
+            elif direction == "l2r":
                 c = lab.gw.newchannel()
                 v, path = nest(rng, c, depth)
                 lab.control_local.send(v)
@@ -237,7 +269,7 @@ def run_transfer(spec):
             if a.receive(10) != ("pong", i):
                 res.violation("transferred-channel-not-connected-back", label)
             # the same channel sent twice arrives as the same object/conversation
-            if i % 5 == 0:
+            if i % 5 == 0 and receiver == "receive":
                 (lab.control_local if direction == "l2r" else lab.control_remote).send(c)
                 again = (lab.control_remote if direction == "l2r" else lab.control_local).receive(10)
                 if again.id != c.id or again is not got:
